@@ -19,7 +19,7 @@
 extern "C" void *vf_malloc(size_t);
 extern "C" void vf_free(void *);
 
-enum { KBuf = 1, KHmeta, KReply, KRawdata, KGeninfo, KMetabuf, KCxxref, KBare, KStream, KOutLocal, KOutRemote, KIterFile };
+enum { KBuf = 1, KHmeta, KReply, KRawdata, KGeninfo, KMetabuf, KCxxref, KBare, KStream, KOutLocal, KOutRemote, KIterFile, KMetaNew };
 
 /* counted through reference<Thing>::type; storage goes through the allocation seam */
 class Thing
@@ -35,6 +35,7 @@ class ThingObj : public mpt::reference<Thing>::type
 {
 public:
 	uintptr_t *raw() { return reinterpret_cast<uintptr_t *>(&_ref); }
+	mpt::reference<Thing> inner;    /* a reference the object holds itself, released by its destructor */
 };
 
 template <typename T>
@@ -100,6 +101,10 @@ extern "C" uintptr_t cxx_thing_peek(void *p)
 extern "C" void cxx_thing_poke(void *p, uintptr_t v)
 {
 	*static_cast<ThingObj *>(p)->raw() = v;
+}
+extern "C" void **cxx_thing_inner(void *p)
+{
+	return reinterpret_cast<void **>(&static_cast<ThingObj *>(p)->inner);
 }
 extern "C" uintptr_t cxx_bare_raise(void *p)
 {
